@@ -19,13 +19,17 @@
 (***************************************************************************)
 EXTENDS Integers, Sequences, FiniteSets, TLC
 
-CONSTANTS FileSets,  \* sequence of chains; a chain is a sequence of [h |-> 12 or 14, units |-> <<sizes>>]
+CONSTANTS FileSets,  \* sequence of chains; a chain is a sequence of [h |-> 12 or 14, units |-> <<sizes>>, mode |-> "decode" | "integrity"]
           BufSize,   \* len(d.bytes.buf) (4096 in the code)
+          CopyBuf,   \* buffer of io.CopyN on the CheckIntegrity path (32768 in the standard library)
           DataWithErr, \* TRUE: the environment may return the last bytes together with the error
           PreFixChainRule \* TRUE: DecodeChained as it was before the fix (any failure on the size byte of a later file ends the chain silently)
 
 VARIABLE fset        \* index of the chain being read (fixed during a behaviour; Trace_FrameImpl switches it between traces)
 Files == FileSets[fset]
+\* "decode": Decode / DecodeChained (parser + chain loop); "integrity": CheckIntegrity(r, false) -
+\* header, io.CopyN of exactly the data size into the checksum, the two CRC bytes, no chain
+Mode == Files[1].mode
 
 Sum(s) == IF s = << >> THEN 0 ELSE LET RECURSIVE F(_) F(i) == IF i > Len(s) THEN 0 ELSE s[i] + F(i + 1) IN F(1)
 DataLen(k) == Sum(Files[k].units)
@@ -36,7 +40,7 @@ Total == StartOf(Len(Files)) + FrameLen(Len(Files))
 
 VARIABLES Avail,    \* bytes readable before the end (chosen at Init, then fixed)
           Fault,    \* TRUE: the end is a non-EOF error (chosen at Init, then fixed)
-          pc,       \* "size" | "hdr" | "unit" | "crc" | "next" | "done"
+          pc,       \* "size" | "hdr" | "unit" | "copy" | "crc" | "next" | "done"
           k,        \* current file (1-based)
           fetched,  \* bytes handed out by the reader so far
           want,     \* bytes the current ReadFull / unit still needs
@@ -96,10 +100,29 @@ ReadSizeA(b) ==
 ReadHdrA(b) ==
            /\ pc = "hdr"
            /\ ReadFullStepA(b, LAMBDA a :
-                  /\ pc' = IF Files[k].units = << >> THEN "crc" ELSE "unit"
-                  /\ want' = IF Files[k].units = << >> THEN 2 ELSE Files[k].units[1]
+                  /\ IF Mode = "integrity"
+                     THEN /\ pc' = IF DataLen(k) = 0 THEN "crc" ELSE "copy"      \* a LimitedReader of 0 bytes answers EOF without reading
+                          /\ want' = IF DataLen(k) = 0 THEN 2 ELSE DataLen(k)
+                     ELSE /\ pc' = IF Files[k].units = << >> THEN "crc" ELSE "unit"
+                          /\ want' = IF Files[k].units = << >> THEN 2 ELSE Files[k].units[1]
                   /\ ui' = 1 /\ n' = 0 /\ buf' = 0
                   /\ UNCHANGED << k, files, result >>)
+
+\* io.CopyN(d.crc, d.r, DataSize): io.Copy over a LimitedReader with a buffer of
+\* min(CopyBuf, DataSize) bytes; bytes that arrive together with an error are
+\* still written, and the error is dropped when they complete the count
+CopyReq == IF CopyBuf < want THEN CopyBuf ELSE want
+CopyA(a) ==
+        /\ pc = "copy"
+        /\ ValidAnswer(CopyReq, a)
+        /\ lastreq' = << fetched, CopyReq >>
+        /\ fetched' = fetched + a.got
+        /\ ended' = (ended \/ a.end)
+        /\ IF a.got = want THEN /\ pc' = "crc" /\ want' = 2
+                                 /\ UNCHANGED << k, ui, n, buf, files, result >>
+           ELSE IF a.end THEN Fail
+           ELSE /\ want' = want - a.got
+                /\ UNCHANGED << pc, k, ui, n, buf, files, result >>
 
 \* readByte / readFull: take from the buffer, fill when it is empty
 Take == /\ pc = "unit" /\ buf > 0
@@ -128,10 +151,13 @@ ReadCRCA(b) ==
            /\ pc = "crc"
            /\ ReadFullStepA(b, LAMBDA a :
                   /\ files' = files + 1
-                  /\ IF k = Len(Files)
-                     THEN /\ pc' = "next" /\ k' = k + 1 /\ want' = 1     \* DecodeChained probes for another file
-                     ELSE /\ pc' = "size" /\ k' = k + 1 /\ want' = 1
-                  /\ UNCHANGED << ui, n, buf, result >>)
+                  /\ IF Mode = "integrity"
+                     THEN /\ pc' = "done" /\ result' = "ok" /\ k' = k /\ want' = 0      \* CheckIntegrity returns: one frame, no chain
+                     ELSE /\ result' = result
+                          /\ IF k = Len(Files)
+                             THEN /\ pc' = "next" /\ k' = k + 1 /\ want' = 1     \* DecodeChained probes for another file
+                             ELSE /\ pc' = "size" /\ k' = k + 1 /\ want' = 1
+                  /\ UNCHANGED << ui, n, buf >>)
 
 \* DecodeChained after the last file: binary.Read of the next size byte.
 \* Only a clean EOF (errReadSize) ends the chain silently.
@@ -149,11 +175,12 @@ ProbeA(a) ==
 ReadSize == \E a \in Answers(want) : ReadSizeA(a)
 ReadHdr == \E a \in Answers(want) : ReadHdrA(a)
 ReadCRC == \E a \in Answers(want) : ReadCRCA(a)
+Copy == pc = "copy" /\ \E a \in Answers(CopyReq) : CopyA(a)
 Fill == /\ pc = "unit" /\ buf = 0
         /\ IF n = Limit THEN FillA([got |-> 0, end |-> TRUE]) ELSE \E a \in Answers(FillReq) : FillA(a)
 Probe == \E a \in Answers(1) : ProbeA(a)
 
-Next == (ReadSize \/ ReadHdr \/ Take \/ Fill \/ ReadCRC \/ Probe) /\ UNCHANGED << fset, Avail, Fault >>
+Next == (ReadSize \/ ReadHdr \/ Take \/ Fill \/ Copy \/ ReadCRC \/ Probe) /\ UNCHANGED << fset, Avail, Fault >>
 
 Spec == Init /\ [][Next]_vars /\ WF_vars(Next)
 
@@ -174,7 +201,8 @@ SuccessConsumesExactly == (pc = "done" /\ result = "ok") => fetched = Total
 \* a stream cut or faulted anywhere but after its last frame is an error;
 \* a fault exactly after the last frame is an error too
 TruncationIsError == (pc = "done" /\ Avail < Total) => result = "err"
-FaultIsError == (pc = "done" /\ Fault) => result = "err"
+\* (CheckIntegrity stops after its frame: a fault behind it is never seen)
+FaultIsError == (pc = "done" /\ Fault /\ (Mode = "decode" \/ Avail < Total)) => result = "err"
 CleanEndIsOk == (pc = "done" /\ Avail = Total /\ ~Fault) => (result = "ok" /\ files = Len(Files))
 \* files completed before the error are all there
 PartialContent == pc = "done" =>
